@@ -116,6 +116,27 @@ fn same_bits(a: &[f64], b: &[f64]) -> bool {
     a.len() == b.len() && a.iter().zip(b).all(|(x, y)| x.to_bits() == y.to_bits())
 }
 
+/// every public observation of a histogram as bit patterns (a panic inside a view is a pattern too):
+/// what "the restored copy is indistinguishable" (C18) quantifies over
+fn fingerprint<H: HistT>(h: &H) -> Vec<u64> {
+    let g = |f: &dyn Fn() -> Vec<f64>| -> Vec<u64> {
+        match std::panic::catch_unwind(std::panic::AssertUnwindSafe(f)) {
+            Ok(v) => v.into_iter().map(|x| if x.is_nan() { u64::MAX } else { x.to_bits() }).collect(),
+            Err(_) => vec![0xdead_beef],
+        }
+    };
+    let mut out: Vec<u64> = h.bins();
+    out.extend(g(&|| h.ranges()));
+    out.extend(g(&|| vec![h.range_min(), h.range_max()]));
+    out.extend(g(&|| h.widths()));
+    out.extend(g(&|| h.centers()));
+    out.extend(g(&|| h.normalized()));
+    out.extend(g(&|| h.variances()));
+    out.extend(g(&|| (0..h.bins().len()).map(|i| h.variance(i)).collect()));
+    out.extend(g(&|| h.items().into_iter().flat_map(|((a, b), c)| [a, b, c as f64]).collect()));
+    out
+}
+
 fn err_name(e: &'static str) -> &'static str {
     e
 }
@@ -634,7 +655,7 @@ fn do_hist_parity<H: HistT>(line: &Value, want: &HWant, rep: &mut Report, parity
                             if let Some(j) = h.to_json() {
                                 let r = H::from_json(&j);
                                 rep.evaluations += 2;
-                                if r.bins() != h.bins() || !same_bits(&r.ranges(), &h.ranges()) {
+                                if r.bins() != h.bins() || !same_bits(&r.ranges(), &h.ranges()) || fingerprint(&r) != fingerprint(h) {
                                     viol(rep, "C18", H::NAME, line, "roundtrip", format!("restored histogram differs at step {}: {} vs {}", step + 1, r.debug(), h.debug()));
                                 }
                                 if h.to_json().as_deref() != Some(j.as_str()) {
@@ -644,7 +665,7 @@ fn do_hist_parity<H: HistT>(line: &Value, want: &HWant, rep: &mut Report, parity
                                 match h.roundtrip_pos() {
                                     Some(Ok(rp)) => {
                                         rep.evaluations += 1;
-                                        if rp.bins() != h.bins() || !same_bits(&rp.ranges(), &h.ranges()) {
+                                        if rp.bins() != h.bins() || !same_bits(&rp.ranges(), &h.ranges()) || fingerprint(&rp) != fingerprint(h) {
                                             viol(rep, "C18", H::NAME, line, "roundtrip (positional format)", format!("restored histogram differs at step {}: {} vs {}", step + 1, rp.debug(), h.debug()));
                                         }
                                         if step % 2 == 1 {
@@ -804,7 +825,7 @@ fn do_hist_parity<H: HistT>(line: &Value, want: &HWant, rep: &mut Report, parity
             rep.evaluations += 1;
             match (&w[s], &w1[s]) {
                 (Some(a), Some(b)) => {
-                    if a.bins() != b.bins() || !same_bits(&a.ranges(), &b.ranges()) || a.variances().iter().zip(b.variances()).any(|(x, y)| bits(*x) != bits(y)) {
+                    if a.bins() != b.bins() || !same_bits(&a.ranges(), &b.ranges()) || fingerprint(a) != fingerprint(b) {
                         viol(rep, "C18", H::NAME, line, "continue", "continuing on the restored histogram diverged from the uninterrupted computation".into());
                     }
                 }
